@@ -145,6 +145,31 @@ def terminated_branch_case(tree, read, kind, info):
     return False
 
 
+def _contains_return(nodes):
+    todo = list(nodes)
+    while todo:
+        n = todo.pop()
+        if isinstance(n, (ast.FunctionDef, ast.AsyncFunctionDef, ast.Lambda, ast.ClassDef)):
+            continue
+        if isinstance(n, ast.Return):
+            return True
+        todo.extend(ast.iter_child_nodes(n))
+    return False
+
+
+def finally_entered_by_return(tree, read):
+    """the read is in a finally block of a try statement whose body / handlers / else contain a return: the finally
+    block then also runs with the state at that return, which supp's finally region (join of else and handler ends) lacks"""
+    pos = (read['line'], read['col'])
+    for t in ast.walk(tree):
+        if isinstance(t, ast.Try) and t.finalbody:
+            fstart = _start(t.finalbody[0])
+            fend = (t.finalbody[-1].end_lineno, t.finalbody[-1].end_col_offset)
+            if fstart <= pos <= fend and _contains_return(t.body + t.handlers + t.orelse):
+                return True
+    return False
+
+
 def annassign_own_target(tree, read):
     line, col, name = read['line'], read['col'], read['name']
     for n in ast.walk(tree):
@@ -159,6 +184,11 @@ def classify(prop, kind, text, tree, read, info):
     if kind in ('lint-E02', 'lint-E42', 'assist-missing', 'names_at-misses-site', 'location-misses-site'):
         if annassign_own_target(tree, read):
             return 'annassign-annotation-reads-own-target'
+    if prop == 'C02' and kind in ('names_at-misses-site', 'location-misses-site') and finally_entered_by_return(tree, read):
+        return 'finally-entered-by-return-misses-the-state-at-the-return'
+    if prop == 'C02' and kind == 'lint-unused-but-read' and info.get('readers') and all(
+            finally_entered_by_return(tree, {'line': r[0], 'col': r[1]}) for r in info['readers']):
+        return 'finally-entered-by-return-misses-the-state-at-the-return'
     if prop == 'C03' and kind in ('phantom-definition', 'undefined-marker-but-always-bound', 'never-bound-not-flagged'):
         if try_raise_point_case(tree, read, info):
             return 'try-join-assumes-raise-at-first-and-last-statement'
